@@ -7,6 +7,10 @@ CLAIMED = {
    text="Deductive: lock-balance ghost state (drive held / per-mutex held) is proved free on every return path of the functions under contract, for every outcome of every callee (each error return of a callee is a CFG path), plus explicit-panic/type-assertion safety. Unbounded in inputs and fault points; no scheduling.",
    note="Assumed: sync.Mutex semantics, the abstract spec of the four BackendConfig drive funcs, callbacks do not touch locks; go/ssa as semantics; SMT solvers. Liveness of io.Pipe hand-off is not decided.",
    design="4.10"),
+ "C15": dict(
+   text="Deductive: ghost counters for 'drive opened for writing' and 'index-store mutator called' are proved unchanged on every path of every STFS/File method when the instance is read-only (resp. the handle lacks the write flag); mutating methods are proved to return ErrPermission; the flag word handed to NewFile is proved free of write/append/truncate for every flag value (bit operations exact). Ghost frames force every function between the API and the seams to declare its writes.",
+   note="Assumed: the drive is only written through BackendConfig.GetWriter and the index only through the five MetadataPersister mutators (specs in /verif/specs); loggers and write caches do not touch stfs state; configuration fields immutable after construction (checked mechanically). 'Reads return what a writable instance returns' is not decided.",
+   design="4.15"),
 }
 
 NOT_YET = {
@@ -16,7 +20,7 @@ NOT_YET = {
  "C07": "not yet built (planned, DESIGN 4.7)", "C08": "not yet built (planned, DESIGN 4.8)",
  "C09": "not yet built (planned, DESIGN 4.9)", "C11": "not yet built (planned, DESIGN 4.11)",
  "C12": "not yet built (planned, DESIGN 4.12)", "C13": "not yet built (planned, DESIGN 4.13)",
- "C14": "not yet built (planned, DESIGN 4.14)", "C15": "not yet built (planned, DESIGN 4.15)",
+ "C14": "not yet built (planned, DESIGN 4.14)",
  "C16": "not yet built (planned, DESIGN 4.16)", "C17": "not yet built (planned, DESIGN 4.17)",
  "C18": "No contract within reach can express or decide it: every clause quantifies over third-party cryptography (age scrypt, go-crypto S2K, minisign KDF) for all passwords; the stfs code involved is format dispatch only (DESIGN section 5).",
 }
